@@ -155,6 +155,7 @@ func runLoaded(p *Program, prop string, spec propSpec, tier, repo, verif, outDir
 func dumpCmd(args []string) {
 	fs := flag.NewFlagSet("dump", flag.ExitOnError)
 	repo := fs.String("repo", "/repo", "")
+	classes := fs.Bool("classes", false, "print the classified guards of each path")
 	fs.Parse(args)
 	p, err := Load(*repo, false, nil)
 	if err != nil {
@@ -162,6 +163,8 @@ func dumpCmd(args []string) {
 		os.Exit(2)
 	}
 	e := NewEngine(p)
+	p.engine = e
+	run := NewRun(p, "dump", "quick", 0)
 	for _, f := range p.All {
 		match := fs.NArg() == 0
 		for _, a := range fs.Args() {
@@ -177,6 +180,11 @@ func dumpCmd(args []string) {
 		if fs.NArg() > 0 {
 			for i, pt := range ps {
 				fmt.Printf("  #%d %s\n", i, p.PathStr(pt))
+				if *classes {
+					pt := pt
+					run.at(&pt)
+					fmt.Printf("      classes: %s\n", run.pathSig(&pt))
+				}
 			}
 		}
 	}
